@@ -70,6 +70,8 @@ func vfC07Run(c vfSerCase, ctx *vfCtx) *vfViolation {
 	if len(stream)%2 == 1 {
 		in = &vfOnlyReader{rd} // a reader that offers nothing but Read
 	}
+	in = vfMaybeChunked(in, c.Chunk)
+	ctx.ClassIf(c.Chunk > 0, "reader_with_short_reads")
 	n, err := dst.read(in)
 	if err != nil {
 		return vfFail("%s: ReadFrom of its own stream (%d bytes) failed: %v", c.Kind, len(stream), err)
@@ -120,7 +122,7 @@ func vfC07Run(c vfSerCase, ctx *vfCtx) *vfViolation {
 			if !ok || sub == nil || len(parts[i+1]) == 0 {
 				continue
 			}
-			n, err := r.ReadFrom(rd)
+			n, err := r.ReadFrom(vfMaybeChunked(rd, c.Chunk))
 			if err != nil || n != int64(len(parts[i+1])) {
 				return vfFail("hybrid: sub-index %d read back-to-back from one reader: n=%d (stream %d), err %v", i, n, len(parts[i+1]), err)
 			}
